@@ -1668,8 +1668,8 @@ let table =
     RvFalse)) :: (Body :: []))) } :: ({ e_name =
     (X73 :: (X70 :: (X69 :: (X66 :: (X5f :: (X73 :: (X74 :: (X72 :: (X5f :: (X72 :: (X65 :: (X76 :: (X65 :: (X72 :: (X73 :: (X65 :: []))))))))))))))));
     e_reach = Exported; e_ret = TBool; e_params = (true :: []); e_self =
-    (Some O); e_slots = (S O); e_parsed = true; e_prelude = ((Guard (GAssert,
-    (O :: []), RvFalse)) :: (Body :: [])) } :: ({ e_name =
+    (Some O); e_slots = (S O); e_parsed = true; e_prelude =
+    (Body :: []) } :: ({ e_name =
     (X73 :: (X70 :: (X69 :: (X66 :: (X5f :: (X73 :: (X74 :: (X72 :: (X5f :: (X72 :: (X69 :: (X6e :: (X64 :: (X65 :: (X78 :: [])))))))))))))));
     e_reach = Exported; e_ret = TInt; e_params = (true :: (false :: []));
     e_self = (Some O); e_slots = (S O); e_parsed = true; e_prelude = ((Guard
@@ -3728,8 +3728,7 @@ let named_cells =
     O) :: (((X73 :: (X70 :: (X69 :: (X66 :: (X5f :: (X73 :: (X74 :: (X72 :: (X5f :: (X70 :: (X72 :: (X65 :: (X70 :: (X65 :: (X6e :: (X64 :: (X5f :: (X66 :: (X72 :: (X6f :: (X6d :: (X5f :: (X70 :: (X74 :: (X72 :: []))))))))))))))))))))))))),
     O) :: (((X73 :: (X70 :: (X69 :: (X66 :: (X5f :: (X73 :: (X74 :: (X72 :: (X5f :: (X70 :: (X72 :: (X65 :: (X70 :: (X65 :: (X6e :: (X64 :: (X5f :: (X66 :: (X72 :: (X6f :: (X6d :: (X5f :: (X70 :: (X74 :: (X72 :: []))))))))))))))))))))))))),
     (S
-    O)) :: (((X73 :: (X70 :: (X69 :: (X66 :: (X5f :: (X73 :: (X74 :: (X72 :: (X5f :: (X72 :: (X65 :: (X76 :: (X65 :: (X72 :: (X73 :: (X65 :: [])))))))))))))))),
-    O) :: (((X73 :: (X70 :: (X69 :: (X66 :: (X5f :: (X73 :: (X74 :: (X72 :: (X5f :: (X72 :: (X69 :: (X6e :: (X64 :: (X65 :: (X78 :: []))))))))))))))),
+    O)) :: (((X73 :: (X70 :: (X69 :: (X66 :: (X5f :: (X73 :: (X74 :: (X72 :: (X5f :: (X72 :: (X69 :: (X6e :: (X64 :: (X65 :: (X78 :: []))))))))))))))),
     O) :: (((X73 :: (X70 :: (X69 :: (X66 :: (X5f :: (X73 :: (X74 :: (X72 :: (X5f :: (X73 :: (X70 :: (X6c :: (X69 :: (X63 :: (X65 :: []))))))))))))))),
     O) :: (((X73 :: (X70 :: (X69 :: (X66 :: (X5f :: (X73 :: (X74 :: (X72 :: (X5f :: (X73 :: (X70 :: (X6c :: (X69 :: (X63 :: (X65 :: (X5f :: (X66 :: (X72 :: (X6f :: (X6d :: (X5f :: (X70 :: (X74 :: (X72 :: [])))))))))))))))))))))))),
     O) :: (((X73 :: (X70 :: (X69 :: (X66 :: (X5f :: (X73 :: (X74 :: (X72 :: (X5f :: (X73 :: (X70 :: (X72 :: (X69 :: (X6e :: (X74 :: (X66 :: [])))))))))))))))),
@@ -4180,7 +4179,7 @@ let named_cells =
     O) :: (((X6c :: (X69 :: (X62 :: (X61 :: (X73 :: (X74 :: (X5f :: (X70 :: (X72 :: (X69 :: (X6e :: (X74 :: (X5f :: (X65 :: (X72 :: (X72 :: (X6f :: (X72 :: [])))))))))))))))))),
     O) :: (((X6c :: (X69 :: (X62 :: (X61 :: (X73 :: (X74 :: (X5f :: (X70 :: (X72 :: (X69 :: (X6e :: (X74 :: (X5f :: (X77 :: (X61 :: (X72 :: (X6e :: (X69 :: (X6e :: (X67 :: [])))))))))))))))))))),
     O) :: (((X6c :: (X69 :: (X62 :: (X61 :: (X73 :: (X74 :: (X5f :: (X66 :: (X61 :: (X74 :: (X61 :: (X6c :: (X5f :: (X65 :: (X72 :: (X72 :: (X6f :: (X72 :: [])))))))))))))))))),
-    O) :: []))))))))))))))))))))))))))))))))))))))))))))))))))))))))))))))))))))))))))))))))))))))))))))))))))))))))))))))))))))))))))))))))))))))))))))))))))))))))))))))))))))))))))))))))))))))))))))))))))))))))))))))))))))))))))))))))))))))))))))))))))))))))))))))))))))))))))))))))))))))))))))))))))))))))))))))))))))))))))))))))))))))))))))))))))))))))))))))))))))))))))))))))))))))))))))))))))))))))))))))))))))))))))))))))))))))))))
+    O) :: [])))))))))))))))))))))))))))))))))))))))))))))))))))))))))))))))))))))))))))))))))))))))))))))))))))))))))))))))))))))))))))))))))))))))))))))))))))))))))))))))))))))))))))))))))))))))))))))))))))))))))))))))))))))))))))))))))))))))))))))))))))))))))))))))))))))))))))))))))))))))))))))))))))))))))))))))))))))))))))))))))))))))))))))))))))))))))))))))))))))))))))))))))))))))))))))))))))))))))))))))))))))))))))))))))))))))))
 
 (** val exempt : cell list **)
 
@@ -4191,4 +4190,4 @@ let exempt =
 (** val table_digest : fname **)
 
 let table_digest =
-  X35 :: (X38 :: (X66 :: (X61 :: (X36 :: (X65 :: (X35 :: (X66 :: (X66 :: (X64 :: (X30 :: (X33 :: (X38 :: (X35 :: (X31 :: (X32 :: [])))))))))))))))
+  X61 :: (X63 :: (X61 :: (X62 :: (X33 :: (X61 :: (X30 :: (X35 :: (X35 :: (X61 :: (X32 :: (X30 :: (X33 :: (X61 :: (X64 :: (X37 :: [])))))))))))))))
